@@ -1,7 +1,7 @@
 (* C01Theorems.v — the property theorems of C01 (decode then encode is lossless outside reserved fields).
    Each is closed by `exact <lemma>` and followed by Print Assumptions (audited by ./check on every run). *)
 From V.lib Require Import Base.
-From V.c01 Require Import C01Codec C01Model C01LeafProofs C01Leaf2Proofs C01Leaf3Proofs C01Leaf4Proofs C01TableProofs C01TreeProofs C01WhyProofs C01Witness C01Witness3
+From V.c01 Require Import C01Codec C01Model C01LeafProofs C01Leaf2Proofs C01Leaf3Proofs C01Leaf4Proofs C01Leaf5Proofs C01TableProofs C01TreeProofs C01WhyProofs C01Witness C01Witness3
   C01RealFiles C01RealWitness C01SizeProofs C01LocalProofs C01StableProofs C01FixProofs C01Witness4.
 
 (* a compact header written by EncodeHeaderSW is read back by DecodeHeaderSR *)
@@ -122,6 +122,11 @@ Theorem C01_leaf_lossless_elng : leaf_lossless dec_elng. Proof. exact lossless_e
 Print Assumptions C01_leaf_lossless_elng.
 Theorem C01_leaf_lossless_kind : leaf_lossless dec_kind. Proof. exact lossless_kind. Qed.
 Print Assumptions C01_leaf_lossless_kind.
+(* stage 4: hvcC (the whole hevc.DecodeHEVCDecConfRec with its NALU arrays) and subs *)
+Theorem C01_leaf_lossless_hvcC : leaf_lossless dec_hvcC. Proof. exact lossless_hvcC. Qed.
+Print Assumptions C01_leaf_lossless_hvcC.
+Theorem C01_leaf_lossless_subs : leaf_lossless dec_subs. Proof. exact lossless_subs. Qed.
+Print Assumptions C01_leaf_lossless_subs.
 Theorem C01_leaf_lossless_stsd : leaf_lossless dec_stsd. Proof. exact lossless_stsd. Qed.
 Print Assumptions C01_leaf_lossless_stsd.
 Theorem C01_leaf_lossless_dref : leaf_lossless dec_dref. Proof. exact lossless_dref. Qed.
@@ -175,12 +180,9 @@ Print Assumptions C01_header_local.
    encoder writes (hdr_fits) is re-encoded by the Go encoder (reserved places filled with dflt_rsv) into exactly
    Size() bytes, and the decoder applied to those bytes -- whatever follows them -- returns the same leaf, now with
    the encoder's values as captured bytes *)
-Theorem C01_leaf_stable : Forall (fun e => leaf_stable (snd e)) leaf_table.
-Proof. exact leaf_table_stable. Qed.
+Theorem C01_leaf_stable : Forall (fun e => leaf_stable (snd e)) leaf_table /\ Forall (fun e => pre_stable (fst (snd e))) pre_table.
+Proof. exact (conj leaf_table_stable pre_table_stable). Qed.
 Print Assumptions C01_leaf_stable.
-Theorem C01_pre_stable : Forall (fun e => pre_stable (fst (snd e))) pre_table.
-Proof. exact pre_table_stable. Qed.
-Print Assumptions C01_pre_stable.
 
 (* C01_fixpoint: for EVERY slice the model of DecodeBoxSR accepts completely with an exact tree t -- no hypothesis on
    the reserved bytes --, the Go encoders succeed with some enc of the input's length (= Size()); decoding enc
